@@ -9,7 +9,7 @@ package main
 //	     p    free slots of the port's outgoing buffer when the tick starts (the back-pressure the
 //	          harness applies by NOT retrieving requests from ToVectorMem)
 //	     cnt x pen   transactions the coalescer appended in that tick, with their coalescing penalty
-//	  answer: `ord=<departure order as issue indices> left=<not yet departed> tr=<post fill>/<waiting> per tick`
+//	  answer: `ord=<departure order as issue indices> left=<not yet departed> tr=<post fill>/<waiting>/<set aside> per tick`
 //
 // A real cu.ComputeUnit (its Builder, WithVecMemTransPipelineWidth / Stages, WithMemPipelineBufferSize)
 // runs one wavefront with a few FLAT instructions whose lanes touch many cache lines; it is ticked by
@@ -23,7 +23,10 @@ package main
 //	                             the memory in reversed order
 //	C02.vmem-counter-early       OutstandingVectorMemAccess is smaller than the number of instructions
 //	                             that still have an unanswered transaction (s_waitcnt releases early)
-// (with the suffix `-width1` for pipeline width 1, where they must never fire).
+// (with the suffix `-width1` for pipeline width 1). They fired for width > 1 until the unit was repaired (fix
+// b81645f1: entry order recorded, oldest sent first, a younger head of the post-pipeline buffer set aside); since then
+// they must never fire for any width. C02.txn-regression-witness / -scenario-weak: the hand-made back-pressure witnesses
+// must still exercise the set-aside path and leave in order.
 
 import (
 	"encoding/binary"
@@ -210,6 +213,7 @@ type c02xT struct {
 
 	early      string // first observation of counter < truth
 	earlyTicks int
+	maxAside   int
 	memOrder   []int // issue indices in the order the memory applied / read them
 	abort      string
 	ticks      int
@@ -387,7 +391,11 @@ func (t *c02xT) after(tick, p int) {
 	}
 	t.toks = append(t.toks, tok)
 	waiting, post, _, _, _ := c.VerifTxnPath()
-	t.trace = append(t.trace, fmt.Sprintf("%d/%d", post, len(waiting)))
+	_, _, aside := c.VerifVMUInOrder()
+	if aside > t.maxAside {
+		t.maxAside = aside
+	}
+	t.trace = append(t.trace, fmt.Sprintf("%d/%d/%d", post, len(waiting), aside))
 	// the counter against the truth: instructions with a transaction whose answer the CU has not processed
 	live := map[*wavefront.Inst]bool{}
 	for _, info := range c.InFlightVectorMemAccess {
@@ -694,12 +702,21 @@ func c02xRunScn(r *Run, dis *insts.Disassembler, sc *c02xScn, verbose bool) *c02
 	if o.reordered && !full {
 		r.Failf("C02.txn-reorder-without-full-buffer", ctx, "departure %s although the post-pipeline buffer was never full", c02xRuns(t.dep))
 	}
-	// the scenario of the Lean refutations (`witnessTicks`, `witness_departure` in Props/C02Txn.lean)
-	if sc.kind == "witness-stores" && sc.w == 2 {
-		r.Checked("txn:lean-witness-is-the-real-run")
-		if o.line != c02xWitnessLine || !strings.HasPrefix(o.answer, c02xWitnessOrd()+" left=0 ") {
-			r.Failf("C02.txn-witness-drift", ctx, "the real unit no longer runs the scenario the Lean witness encodes: want %s => %s", c02xWitnessLine, c02xWitnessOrd())
+	// regression scenario of the repaired unit (fix b81645f1): the hand-made back-pressure witnesses that made
+	// the unit before the repair send 0-72 74-191 73 (`Old.witness_departure` in Props/C02Txn.lean; on the
+	// repaired model: `witness_scenario_repaired`) must still fill the post-pipeline buffer, must make the
+	// unit set transactions aside (the repaired path is really taken) and must leave in issue order, complete
+	if (sc.kind == "witness-stores" || sc.kind == "witness-load") && sc.w >= 2 {
+		r.Checked("txn:regression-witness")
+		switch {
+		case !full || t.maxAside == 0:
+			r.Failf("C02.txn-regression-scenario-weak", ctx, "the back-pressure witness no longer exercises the set-aside path: post buffer full=%v, most transactions set aside=%d", full, t.maxAside)
+		case o.reordered || len(t.dep) != len(t.txns):
+			r.Failf("C02.txn-regression-witness", ctx, "departure %s of %d transactions", c02xRuns(t.dep), len(t.txns))
 		}
+	}
+	if t.maxAside > 0 {
+		r.Count(kind("set-aside-used"))
 	}
 	if verbose {
 		fmt.Printf("scenario: %s\n%s\n  => %s\n", sc.text(), o.line, o.answer)
@@ -719,21 +736,6 @@ func equalInts(a, b []int) bool {
 		}
 	}
 	return true
-}
-
-// the case line `witnessTicks` of lean/MgpuProofs/Props/C02Txn.lean transcribes, and its departure order
-const c02xWitnessLine = "c02 txn w=2 s=1 b=8 n=192 ev=64*10,64:64x0,64*3,62,60,58,56,54:64x0,52,50,48,46,44,42,40,38:64x0," +
-	"36,34,32,30,28,26,24,22,20,18,16,14,12,10,8,6,4,2,0*35,1*128"
-
-func c02xWitnessOrd() string {
-	var l []int
-	for i := 0; i < 73; i++ {
-		l = append(l, i)
-	}
-	for i := 74; i < 192; i++ {
-		l = append(l, i)
-	}
-	return "ord=" + c02xInts(append(l, 73))
 }
 
 // ---- scenarios -------------------------------------------------------------------------------------
